@@ -959,7 +959,9 @@ class Pkg:
             if m == "pop":
                 return self.elem.get(sid, BOT)
             if m == "copy":
-                return me
+                ns = self.new_site(n, "list", sc, "copy")
+                self.upd(self.elem, ns, self.elem.get(sid, BOT))
+                return self.site_ty(ns)
             if m in ("index", "count"):
                 return INT
             if m in ("remove", "sort", "reverse", "clear"):
@@ -1011,7 +1013,10 @@ class Pkg:
                     self.upd(self.elem, ns, self.val.get(sid, BOT))
                 return self.site_ty(ns)
             if m == "copy":
-                return me
+                ns = self.new_site(n, "dict", sc, "copy")
+                self.upd(self.elem, ns, self.elem.get(sid, BOT))
+                self.upd(self.val, ns, self.val.get(sid, BOT))
+                return self.site_ty(ns)
             if m == "update":
                 for p in pos:
                     for s2 in self.sites(p, "dict"):
@@ -1167,7 +1172,12 @@ class Pkg:
                     self.upd(self.elem, a[1], kt)
                     r = join(r, self.val.get(a[1], BOT))
                 elif is_slice:
-                    r = join(r, frozenset([a]))
+                    if k == "list":
+                        ns = self.new_site(n, "list", sc, "slice")  # a slice is a new list
+                        self.upd(self.elem, ns, self.elem.get(a[1], BOT))
+                        r = join(r, self.site_ty(ns))
+                    else:
+                        r = join(r, frozenset([a]))
                 else:
                     r = join(r, self.elem.get(a[1], BOT))
             elif isinstance(a, tuple) and a[0] == "tup":
